@@ -340,26 +340,48 @@ static void do_ipcbig(const char* kinds, int payload, char** capw, int ncapw) {
 
 /* ------------------------------------------------------------------ write2 / try_write2 refusal table */
 static void nop_wcb(uv_write_t* r, int s) {}
+static int raw_fds_received(int fd) {        /* drain the peer: how many SCM_RIGHTS descriptors arrived */
+  int n = 0;
+  for (;;) {
+    char data[64]; union { struct cmsghdr h; char b[CMSG_SPACE(sizeof(int) * 16)]; } c; struct msghdr m; struct iovec v; struct cmsghdr* cm; ssize_t r;
+    memset(&m, 0, sizeof m); v.iov_base = data; v.iov_len = 1; m.msg_iov = &v; m.msg_iovlen = 1; m.msg_control = c.b; m.msg_controllen = sizeof c.b;
+    r = recvmsg(fd, &m, MSG_DONTWAIT);
+    if (r <= 0) return n;
+    for (cm = CMSG_FIRSTHDR(&m); cm; cm = CMSG_NXTHDR(&m, cm)) if (cm->cmsg_type == SCM_RIGHTS) {
+      int k = (cm->cmsg_len - CMSG_LEN(0)) / sizeof(int), x, f; for (x = 0; x < k; x++) { memcpy(&f, CMSG_DATA(cm) + x * sizeof(int), sizeof f); close(f); n++; }
+    }
+  }
+}
+/* carrier {non-IPC pipe, IPC pipe, connected TCP stream} x handle {tcp, pipe, udp, fd-less tcp, fd-less udp} x {uv_try_write2, uv_write2} */
 static void do_wcheck(void) {
-  int p[2], q[2], i, j; uv_pipe_t plain, ipcp; uv_tcp_t good, nofd; uv_udp_t unofd; struct sockaddr_in a; char b = 'x';
-  uv_buf_t buf = uv_buf_init(&b, 1); static uv_write_t reqs[16]; int nreq = 0;
-  socketpair(AF_UNIX, SOCK_STREAM, 0, p); socketpair(AF_UNIX, SOCK_STREAM, 0, q);
+  int p[2], q[2], hp[2], i, j, ls, cs, as, sent = 0; uv_pipe_t plain, ipcp, hpipe; uv_tcp_t carrier, good, nofd; uv_udp_t hudp, unofd; struct sockaddr_in a; socklen_t al = sizeof a; char b = 'x';
+  uv_buf_t buf = uv_buf_init(&b, 1); static uv_write_t reqs[32]; int nreq = 0;
+  socketpair(AF_UNIX, SOCK_STREAM, 0, p); socketpair(AF_UNIX, SOCK_STREAM, 0, q); socketpair(AF_UNIX, SOCK_STREAM, 0, hp);
   uv_pipe_init(loop, &plain, 0); uv_pipe_open(&plain, p[0]);
   uv_pipe_init(loop, &ipcp, 1); uv_pipe_open(&ipcp, q[0]);
   uv_ip4_addr("127.0.0.1", 0, &a);
+  ls = socket(AF_INET, SOCK_STREAM, 0); bind(ls, (struct sockaddr*) &a, sizeof a); listen(ls, 1); getsockname(ls, (struct sockaddr*) &a, &al);
+  cs = socket(AF_INET, SOCK_STREAM, 0); syscall(SYS_connect, cs, (struct sockaddr*) &a, sizeof a); as = syscall(SYS_accept4, ls, NULL, NULL, 0);
+  uv_tcp_init(loop, &carrier); uv_tcp_open(&carrier, cs);
+  uv_ip4_addr("127.0.0.1", 0, &a);
   uv_tcp_init(loop, &good); uv_tcp_bind(&good, (struct sockaddr*) &a, 0); uv_listen((uv_stream_t*) &good, 1, conn_cb); good.data = (void*) 127L;
+  uv_pipe_init(loop, &hpipe, 0); uv_pipe_open(&hpipe, hp[0]);
+  uv_udp_init(loop, &hudp); uv_udp_bind(&hudp, (struct sockaddr*) &a, 0);
   uv_tcp_init(loop, &nofd); uv_udp_init(loop, &unofd);
-  uv_stream_t* streams[2] = { (uv_stream_t*) &plain, (uv_stream_t*) &ipcp }; const char* sn[2] = { "plain", "ipc" };
-  uv_stream_t* hs[3] = { (uv_stream_t*) &good, (uv_stream_t*) &nofd, (uv_stream_t*) &unofd }; const char* hn[3] = { "good", "nofd", "udpnofd" };
-  for (i = 0; i < 2; i++) for (j = 0; j < 3; j++) {
+  uv_stream_t* streams[3] = { (uv_stream_t*) &plain, (uv_stream_t*) &ipcp, (uv_stream_t*) &carrier }; const char* sn[3] = { "plain", "ipc", "tcp" };
+  uv_stream_t* hs[5] = { (uv_stream_t*) &good, (uv_stream_t*) &nofd, (uv_stream_t*) &unofd, (uv_stream_t*) &hpipe, (uv_stream_t*) &hudp };
+  const char* hn[5] = { "good", "nofd", "udpnofd", "goodpipe", "goodudp" };
+  for (i = 0; i < 3; i++) for (j = 0; j < 5; j++) {
     int r1 = uv_try_write2(streams[i], &buf, 1, hs[j]);
     int r2 = uv_write2(&reqs[nreq++], streams[i], &buf, 1, hs[j], nop_wcb);
     printf("wcheck %s %s try_write2=%d write2=%d\n", sn[i], hn[j], r1, r2);
+    if (i == 1) sent += (r1 > 0) + (r2 == 0);
     uv_run(loop, UV_RUN_NOWAIT);
   }
-  uv_close((uv_handle_t*) &plain, NULL); uv_close((uv_handle_t*) &ipcp, NULL); uv_close((uv_handle_t*) &good, NULL);
-  uv_close((uv_handle_t*) &nofd, NULL); uv_close((uv_handle_t*) &unofd, NULL);
-  close(p[1]); close(q[1]);
+  printf("wdeliver ipc sent=%d got=%d plain-got=%d tcp-got=%d\n", sent, raw_fds_received(q[1]), raw_fds_received(p[1]), raw_fds_received(as));
+  uv_close((uv_handle_t*) &plain, NULL); uv_close((uv_handle_t*) &ipcp, NULL); uv_close((uv_handle_t*) &good, NULL); uv_close((uv_handle_t*) &carrier, NULL);
+  uv_close((uv_handle_t*) &nofd, NULL); uv_close((uv_handle_t*) &unofd, NULL); uv_close((uv_handle_t*) &hpipe, NULL); uv_close((uv_handle_t*) &hudp, NULL);
+  close(p[1]); close(q[1]); close(hp[1]); close(ls); close(as);
   for (i = 0; i < 4; i++) uv_run(loop, UV_RUN_NOWAIT);
 }
 
